@@ -35,7 +35,7 @@ class ThreadLockModel(SemModel):
 class CallQueueModel(Model):
     """multiprocessing.queues.Queue as seen by the manager thread: slot semaphore + feeder buffer."""
     METHODS = {"full": [], "put": [], "put_nowait": ["Full"], "close": [], "join_thread": [],
-               "take_failed_item": []}
+               "take_failed_item": [], "worker_get": []}
 
     def __init__(self, name, S, n, cap, free=None):
         self.name, self.n, self.cap = name, n, cap
@@ -51,7 +51,8 @@ class CallQueueModel(Model):
         self.hooks = {}
 
     def result_type(self, method):
-        return {"full": "bool", "take_failed_item": ("rec", "CallItem", {"i": "int"})}.get(method)
+        return {"full": "bool", "take_failed_item": ("rec", "CallItem", {"i": "int"}),
+                "worker_get": ("rec", "CallItem", {"i": "int", "?": "bool"})}.get(method)
 
     def outcomes(self, method, args, kwargs, t, S):
         nm = self.name
@@ -84,6 +85,19 @@ class CallQueueModel(Model):
                 outs.append(Outcome(z3.Extract(j, j, buf) == 1,
                                     {f"{nm}.buf": buf & ~BV(1 << j), f"{nm}.free": free + 1},
                                     ("rec", "CallItem", {"i": BV(j)}), None, f"item{j}"))
+            return outs
+        if method == "worker_get":
+            # a worker's call_queue.get(): items in id order, then sentinels; gives the slot back (_sem.release())
+            outs = []
+            for j in range(self.n):
+                lower = (z3.Extract(j - 1, 0, buf) == 0) if j > 0 else T
+                outs.append(Outcome(z3.And(z3.Extract(j, j, buf) == 1, lower),
+                                    {f"{nm}.buf": buf & ~BV(1 << j), f"{nm}.free": free + 1},
+                                    ("rec", "CallItem", {"i": BV(j), "?": T}), None, f"item{j}"))
+            sent = S[f"{nm}.sentinels"]
+            lowbits = z3.Extract(self.n - 1, 0, buf) == 0
+            outs.append(Outcome(z3.And(lowbits, sent != 0), {f"{nm}.sentinels": sent - 1, f"{nm}.free": free + 1},
+                                ("rec", "CallItem", {"i": BV(0), "?": z3.BoolVal(False)}), None, "sentinel"))
             return outs
         if method == "close":
             return [Outcome(T, {f"{nm}.closed": T}, None, None, "ok")]
@@ -143,8 +157,11 @@ class ProcessTable(Model):
             # worker side: worker_exit_lock.acquire(True, timeout=30)
             return [Outcome(bit(xl, i, n), {f"{nm}.exitlock": xl & ~onehot(i, n)}, True, None, "ok"),
                     Outcome(z3.Not(bit(xl, i, n)), {}, False, None, "timeout")]
-        if method in ("die", "kill"):
+        if method == "die":
             return [Outcome(T, {f"{nm}.alive": alive & ~onehot(i, n)}, None, None, "ok")]
+        if method == "kill":
+            # kill_process_tree(p): SIGKILL to the tree, then p.join() (the tree walk itself is C06)
+            return [Outcome(T, {f"{nm}.alive": alive & ~onehot(i, n), f"{nm}.joined": joined | onehot(i, n)}, None, None, "ok")]
         raise KeyError(method)
 
 
@@ -169,6 +186,31 @@ class WaitModel(Model):
         wake = S["wakeup.pipe.n"] != 0 if "wakeup.r" in objs else z3.BoolVal(False)
         dead = zk(mask) & ~S["ptable.alive"]
         return [Outcome(z3.Or(res, wake, dead != 0), {}, ("rec", "Ready", {"res": res, "wake": wake, "sent": dead}), None, "ready")]
+
+
+class ResultWriter(Model):
+    """Worker side of the result queue (environment): whole messages, blocks while the pipe is full."""
+    METHODS = {"put_pid": [], "put_result": []}
+
+    def __init__(self, pipe):
+        self.pipe = pipe
+
+    def outcomes(self, method, args, kwargs, t, S):
+        p = self.pipe
+        n = S[f"{p.name}.n"]
+
+        def push(k, a, e, label):
+            u = {f"{p.name}.n": n + 1}
+            for j in range(p.cap):
+                for f, val in (("k", BV(k)), ("a", zk(a)), ("e", e)):
+                    u[f"{p.name}.{j}.{f}"] = z3.If(n == BV(j), val, S[f"{p.name}.{j}.{f}"])
+            return Outcome(z3.ULT(n, BV(p.cap)), u, None, None, label)
+        if method == "put_pid":
+            return [push(1, as_idx(args[0]), z3.BoolVal(False), "pid")]
+        if method == "put_result":
+            i = as_idx(args[0])
+            return [push(0, i, z3.BoolVal(False), "value"), push(0, i, z3.BoolVal(True), "exception")]
+        raise KeyError(method)
 
 
 class NoopModel(Model):
@@ -212,6 +254,7 @@ class ExecSlice:
         self.rpipe = PipeState("resq.pipe", S, 2, fields=[("k", "int"), ("a", "int"), ("e", "bool")])
         O["resq.r"] = {"model": ConnModel(self.rpipe, "Msg")}
         O["resq"] = {"attrs": {"_reader": ObjRef("resq.r")}, "model": NoopModel(["close"])}
+        O["resq.w"] = {"model": ResultWriter(self.rpipe)}
         O["waiter"] = {"model": WaitModel(S, n_workers)}
         # flags
         O["flags"] = {"cls": "_ExecutorFlags",
